@@ -87,9 +87,9 @@ class CobaContext_meta(type):
 
         return config
 
-    def _resolve_and_expand_paths(cls, config_dict: dict, current_dir:str):
-        for key,item in config_dict.items():
-            if isinstance(item, dict):
+    def _resolve_and_expand_paths(cls, config_dict: Union[dict,list], current_dir:str):
+        for key,item in (config_dict.items() if isinstance(config_dict,dict) else enumerate(config_dict)):
+            if isinstance(item, (dict,list)):
                 cls._resolve_and_expand_paths(item, current_dir)
 
             if isinstance(item,str) and item.strip().startswith("~/"):
